@@ -210,7 +210,7 @@ def s5_accessors(chk: Check, proj: Project, names: List[str], rule: str = "S5") 
         n += 1
         rets = [s for s in stmts(f) if isinstance(s, ast.Return) and s.value is not None]
         ors = [b for s in stmts(f) for b in ast.walk(s) if isinstance(b, ast.BoolOp) and isinstance(b.op, ast.Or) and any("_settings." in norm(v) or norm(v) == "val" for v in b.values)]
-        dflt = [c for rr in rets for c in ast.walk(rr) if isinstance(c, ast.Call) and last_attr(c.func) == "default"]
+        dflt = [c for st_ in stmts(f) for c in ast.walk(st_) if isinstance(c, ast.Call) and last_attr(c.func) == "default"]
         ok = bool(dflt) and not ors
         chk.ob(rule, f"app_settings:InternalSettings.{nm}", m.loc(f), ok, "returns default(<configured>, <fallback>) (None-check)" if ok else
                f"`{short(ors[0]) if ors else short(rets[0]) if rets else nm}` falls back to the default for every FALSY configured value: an explicit empty list / 0 is silently replaced by the default")
